@@ -947,3 +947,12 @@ neutral('n-mark-complete-merged-test', M,
         "            if not all_handlers_done:\n                # logger.debug(",
         "            if all_handlers_done is False or not all_handlers_done:\n                # logger.debug(",
         'redundant disjunct')
+
+mut('c08-results-reset-on-reprocess', 'C08', ['C08.2'], S,
+    "        # Create pending EventResults for all applicable handlers before execution\n",
+    "        for stale_id in [hid for hid, r in event.event_results.items() if r.eventbus_id == str(id(self)) and r.status == 'error']:\n            del event.event_results[stale_id]\n        # Create pending EventResults for all applicable handlers before execution\n",
+    'errored results of this bus are dropped when the event is processed again')
+mut('c08-children-pruned', 'C08', ['C08.2'], M,
+    "        for child_event in self.event_children:\n            for result in child_event.event_results.values():\n                if result.status == 'pending':",
+    "        for event_result in self.event_results.values():\n            event_result.event_children[:] = [c for c in event_result.event_children if c.event_status != 'pending']\n        for child_event in self.event_children:\n            for result in child_event.event_results.values():\n                if result.status == 'pending':",
+    'pending children are dropped from the child lists on timeout')
